@@ -2,10 +2,12 @@
 package main
 
 import (
+	"crypto/tls"
 	"crypto/x509"
 	"fmt"
 	"math/big"
 	"math/rand"
+	"net"
 	"os"
 	"path/filepath"
 	"runtime"
@@ -187,6 +189,12 @@ func main() {
 		}()
 	}
 	wg.Wait()
+	if si == 0 {
+		tlsScenario(run, w, scratch, intPEM)
+	}
+	if si == 1%sn {
+		siblingLocations(run, w, scratch, intPEM)
+	}
 	run.Count("crl_origin_hits", int64(w.CRL.HitCount("")))
 	run.Count("ocsp_origin_hits", int64(w.OCSP.HitCount("")))
 	run.FinishShard()
@@ -391,4 +399,178 @@ func runCase(run *report.Run, w *world.World, c caseSpec, scratch, intPEM, other
 		run.Sample(map[string]any{"case": c.desc(), "probed_positions": len(pos), "first_listed_serial": entries[0].Serial.String(), "crl_bytes": len(data)})
 	}
 	_ = x509.Certificate{}
+}
+
+
+// tlsScenario wires the validator into a real TLS server exactly as caddytls does
+// (tls.Config.VerifyPeerCertificate -> VerifyClientCertificate(rawCerts, verifiedChains)) and
+// confirms on a handful of real handshakes that the returned error aborts the handshake.
+func tlsScenario(run *report.Run, w *world.World, scratch, intPEM string) {
+	rng := rand.New(rand.NewSource(run.Seed + 4242))
+	entries := gen.Entries(rng, gen.Opts{N: 40, SerialWidth: 0, Exts: 4})
+	file := filepath.Join(scratch, "tls.crl")
+	_ = os.WriteFile(file, crlgen.PEM(gen.SpecFor(w.Int, entries).Build(w.Int.Key).DER, "\n", true), 0644)
+	wd := filepath.Join(scratch, "wd-tls")
+	_ = os.MkdirAll(wd, 0755)
+	cfg := sut.CRLCfg(wd, "disk", "verify", "fetch_actively", false, "")
+	cfg.CRLFiles = []string{file}
+	cfg.TrustedSignatureCertsFiles = []string{intPEM}
+	v, err := sut.Provision(sut.Config{Mode: "crl_only", CRL: cfg})
+	if err != nil {
+		run.Violation("tls.provision-failed", err.Error(), nil)
+		return
+	}
+	defer v.Cleanup()
+	serverCert := w.Int.Issue(pki.CertOpts{CN: "localhost", DNSNames: []string{"localhost"}, ExtKeyUsage: []x509.ExtKeyUsage{x509.ExtKeyUsageServerAuth}})
+	pool := x509.NewCertPool()
+	pool.AddCert(w.Root.Cert)
+	inter := x509.NewCertPool()
+	inter.AddCert(w.Int.Cert)
+	srvCfg := &tls.Config{
+		Certificates: []tls.Certificate{{Certificate: [][]byte{serverCert.Cert.Raw, w.Int.Cert.Raw}, PrivateKey: serverCert.Key}},
+		ClientAuth:   tls.RequireAndVerifyClientCert,
+		ClientCAs:    pool,
+		VerifyPeerCertificate: func(rawCerts [][]byte, verifiedChains [][]*x509.Certificate) error {
+			return v.Val.VerifyClientCertificate(rawCerts, verifiedChains)
+		},
+	}
+	ln, err := tls.Listen("tcp", "127.0.0.1:0", srvCfg)
+	if err != nil {
+		run.Inconclusive("tls listen: " + err.Error())
+		return
+	}
+	defer ln.Close()
+	results := make(chan error, 64)
+	go func() {
+		for {
+			c, err := ln.Accept()
+			if err != nil {
+				return
+			}
+			go func(c net.Conn) {
+				defer c.Close()
+				tc := c.(*tls.Conn)
+				_ = tc.SetDeadline(time.Now().Add(10 * time.Second))
+				err := tc.Handshake()
+				if err == nil {
+					_, _ = tc.Write([]byte("ok"))
+				}
+				results <- err
+			}(c)
+		}
+	}()
+	dial := func(serial *big.Int) (clientOK bool, serverErr error) {
+		leaf := w.Int.Issue(pki.CertOpts{CN: "tls client", Serial: serial, ExtKeyUsage: []x509.ExtKeyUsage{x509.ExtKeyUsageClientAuth}})
+		cc := &tls.Config{
+			Certificates: []tls.Certificate{{Certificate: [][]byte{leaf.Cert.Raw, w.Int.Cert.Raw}, PrivateKey: leaf.Key}},
+			RootCAs:      pool, ServerName: "localhost",
+		}
+		conn, err := tls.Dial("tcp", ln.Addr().String(), cc)
+		if err == nil {
+			_ = conn.SetDeadline(time.Now().Add(10 * time.Second))
+			buf := make([]byte, 2)
+			_, rerr := conn.Read(buf)
+			clientOK = rerr == nil && string(buf) == "ok"
+			conn.Close()
+		}
+		select {
+		case serverErr = <-results:
+		case <-time.After(15 * time.Second):
+			serverErr = fmt.Errorf("no server result")
+		}
+		return
+	}
+	for _, p := range []int{0, 20, 39} {
+		ok, serr := dial(entries[p].Serial)
+		run.Eval(1)
+		if ok || serr == nil {
+			run.Violation("tls.revoked-client-completed-handshake", fmt.Sprintf("real TLS handshake with a listed client certificate (position %d) completed: client ok=%v server err=%v", p, ok, serr), nil)
+			continue
+		}
+		if !strings.Contains(serr.Error(), "revoked") {
+			run.Inconclusive(fmt.Sprintf("tls: handshake with a listed certificate failed for another reason: %v", serr))
+			continue
+		}
+		run.NonTrivial(fmt.Sprintf("tls handshake listed position %d aborted", p))
+	}
+	for i := 0; i < 2; i++ {
+		ok, serr := dial(pki.NextSerial())
+		run.Eval(1)
+		if !ok || serr != nil {
+			run.Violation("tls.unlisted-client-rejected", fmt.Sprintf("real TLS handshake with an unlisted client certificate failed: client ok=%v server err=%v", ok, serr), nil)
+			continue
+		}
+		run.NonTrivial(fmt.Sprintf("tls handshake unlisted #%d completed", i))
+	}
+	run.Count("real_tls_handshakes", 5)
+}
+
+
+// siblingLocations: two healthy CRLs at locations that differ only slightly (query string, path
+// case, trailing slash, doubled slash); a certificate listed in either must be rejected, whether
+// the locations are configured crl_urls or the certificates' own distribution points.
+func siblingLocations(run *report.Run, w *world.World, scratch, intPEM string) {
+	rng := rand.New(rand.NewSource(run.Seed + 777))
+	pairs := map[string][2]string{
+		"query-differs":     {"/certdist?cmd=crl&issuer=CA-A", "/certdist?cmd=crl&issuer=CA-B"},
+		"path-case-differs": {"/crl/Issuing.crl", "/crl/issuing.crl"},
+		"trailing-slash":    {"/crls/current", "/crls/current/"},
+		"doubled-slash":     {"/pki/ca.crl", "/pki//ca.crl"},
+		"query-vs-none":     {"/q.crl", "/q.crl?v=2"},
+	}
+	n := 0
+	for name, pr := range pairs {
+		for _, backend := range []string{"memory", "disk"} {
+			for _, via := range []string{"crl_urls", "cdp"} {
+				n++
+				e1 := gen.Entries(rng, gen.Opts{N: 6, SerialWidth: 9})
+				e2 := gen.Entries(rng, gen.Opts{N: 6, SerialWidth: 9})
+				pfx := fmt.Sprintf("/sib%d", n)
+				u1, u2 := w.CRL.URL(pfx+pr[0]), w.CRL.URL(pfx+pr[1])
+				set := func(p string, body []byte) {
+					w.CRL.Set(pfx+p, origin.Good(body))
+					if !strings.Contains(p, "?") {
+						w.CRL.Set(pfx+p+"?", origin.Good(body))
+					}
+				}
+				set(pr[0], gen.SpecFor(w.Int, e1).Build(w.Int.Key).DER)
+				set(pr[1], gen.SpecFor(w.Int, e2).Build(w.Int.Key).DER)
+				wd := filepath.Join(scratch, fmt.Sprintf("wd-sib%d", n))
+				_ = os.MkdirAll(wd, 0755)
+				cfg := sut.CRLCfg(wd, backend, "verify", "fetch_actively", false, "")
+				cfg.TrustedSignatureCertsFiles = []string{intPEM}
+				var cdp1, cdp2 []string
+				if via == "crl_urls" {
+					cfg.CRLUrls = []string{u1, u2}
+				} else {
+					cdp1, cdp2 = []string{u1}, []string{u2}
+				}
+				v, err := sut.Provision(sut.Config{Mode: "crl_only", CRL: cfg})
+				desc := fmt.Sprintf("sibling locations %s via=%s backend=%s", name, via, backend)
+				run.Eval(1)
+				if err != nil {
+					run.Violation("sibling-locations.provision-failed."+name, desc+": "+err.Error(), nil)
+					continue
+				}
+				ok := true
+				// touch both locations first (CDP: first use), then ask about both lists
+				_ = v.Verify(w.Leaf(pki.NextSerial(), cdp1, nil))
+				_ = v.Verify(w.Leaf(pki.NextSerial(), cdp2, nil))
+				for i, probe := range []struct {
+					s   *big.Int
+					cdp []string
+				}{{e1[2].Serial, cdp1}, {e2[3].Serial, cdp2}} {
+					if v.Verify(w.Leaf(probe.s, probe.cdp, nil)) == nil {
+						ok = false
+						run.Violation(fmt.Sprintf("sibling-locations.%s.listed-accepted.%s", name, via), fmt.Sprintf("%s: certificate listed in CRL #%d (%s) accepted", desc, i+1, []string{u1, u2}[i]), &report.Replay{Case: desc})
+					}
+				}
+				if ok {
+					run.NonTrivial(desc)
+				}
+				_ = v.Cleanup()
+				_ = os.RemoveAll(wd)
+			}
+		}
+	}
 }
